@@ -23,11 +23,12 @@ EXPLANATION = (
     " (R10) definite assignment: no function of the io / statistics modules reads a local that a branch-only path from its entry leaves unassigned (CFG may-analysis, optimistic about try bodies and loop bodies, correlated guards pruned) - an UnboundLocalError there would abort the round trip. " 
     " (R11) a hop that forwards component statistics through a key filter (allow-list / deny-list of attribute names) lets every attribute of the property's sets through. " 
     " (R12) every `dtype` entry of a mapping returned by a serialiser is rendered with str() / the alias helper (a raw DataType object is not YAML / JSON serialisable). " 
+    " (R13) the script generator renders values with repr() only - no value between hand-written quote characters (R3 no longer accepts hand quoting as quoting). " 
     "NOT decided: textual idempotence of YAML, verdict equality on "
     "probe frames, dtype string aliases resolving at run time."
 )
 LEVEL_RULE = "one obligation per (attribute, hop) / template slot / dictionary key found in the current tree"
-FLOORS = {"R1": 90, "R2": 14, "R3": 20, "R4": 3, "R5": 5, "R6": 3, "R7": 3, "R8": 1, "R9": 1, "R10": 1, "R12": 2}
+FLOORS = {"R1": 90, "R2": 14, "R3": 20, "R4": 3, "R5": 5, "R6": 3, "R7": 3, "R8": 1, "R9": 1, "R10": 1, "R12": 2, "R13": 1}
 
 IO = "pandera/io/pandas_io.py"
 STATS = "pandera/schema_statistics/pandas.py"
@@ -226,10 +227,9 @@ def is_quoted(e) -> bool:
             if isinstance(p, ast.FormattedValue):
                 if p.conversion == ord("r"):
                     continue
-                before = parts[i - 1].value if i > 0 and isinstance(parts[i - 1], ast.Constant) else ""
-                after = parts[i + 1].value if i + 1 < len(parts) and isinstance(parts[i + 1], ast.Constant) else ""
-                if not (before and after and before[-1] in "\"'" and after[0] == before[-1]):
-                    return False
+                # hand-written quote characters around the value are not a faithful rendering: a non-str value (label 0)
+                # comes back as a str, and a quote / backslash / newline inside the value breaks or changes the literal
+                return False
         return True
     return False
 
@@ -545,6 +545,31 @@ def r12_dtype_entries_are_strings(ctx):
         raise AnalysisError(f"serialisers: expected the component and the dataframe-level dtype entries, found {n}")
 
 
+def r13_no_hand_written_quotes(ctx):
+    """A value is written into the generated script with repr() (`!r`, `.__repr__()`), never between hand-written quote
+    characters (`f"'{k}'"`): hand quoting turns non-str values into strings (the integer labels 0, 1 of a default frame come
+    back as '0', '1') and breaks on quotes, backslashes and newlines inside the value."""
+    io = ctx.ix.module(IO)
+    n = 0
+    for f in io.all_functions:
+        if f.name not in ("to_script", "_format_index", "_format_checks") and not f.name.startswith("_format"):
+            continue
+        for js in [x for x in ast.walk(f.node) if isinstance(x, ast.JoinedStr)]:
+            parts = js.values
+            for i, p_ in enumerate(parts):
+                if not isinstance(p_, ast.FormattedValue) or p_.conversion == ord("r"):
+                    continue
+                before = parts[i - 1].value if i > 0 and isinstance(parts[i - 1], ast.Constant) and isinstance(parts[i - 1].value, str) else ""
+                after = parts[i + 1].value if i + 1 < len(parts) and isinstance(parts[i + 1], ast.Constant) and isinstance(parts[i + 1].value, str) else ""
+                if before and after and before[-1] in "\"'" and after[0] == before[-1]:
+                    n += 1
+                    ctx.ob("R13", f, f"{f.name}: `{txt(p_.value)[:40]}` is rendered with repr()", False,
+                           f"`{txt(js)[:70]}` puts the value between hand-written quotes: a non-str value comes back as a str and a quote / backslash / newline "
+                           "inside it breaks or changes the literal, so exec(to_script(S)).schema != S", f.loc(js))
+    ctx.ob("R13", io.functions.get("to_script"), "no value is pasted between hand-written quotes in the script generator", n == 0,
+           "all rendered through repr()" if n == 0 else f"{n} hand-quoted value(s)")
+
+
 def run(ctx):
     from ..defassign import check_modules
     check_modules(ctx, "R10", ('pandera/io/pandas_io.py', 'pandera/schema_statistics/pandas.py'), "escapes serialisation: the round trip is not even attempted")
@@ -553,6 +578,7 @@ def run(ctx):
     r9_script_imports(ctx)
     r11_key_filters(ctx)
     r12_dtype_entries_are_strings(ctx)
+    r13_no_hand_written_quotes(ctx)
     ix = ctx.ix
     io = ix.module(IO)
     st = ix.module(STATS)
